@@ -396,6 +396,35 @@ func (s *rbfSim) exec(ev rev) {
 		rate := rbfRates[r.Draw(len(rbfRates))]
 		r.Count("probe_rbf_reoffer")
 		r.Logf("%s: user asks for a new offer at %d sat/vb", nm(x), rate)
+		// BOLT 2 (simple close): the closer_script of a later
+		// closing_complete may differ from the script announced in
+		// shutdown. lnd itself never changes its script, so one re-offer
+		// in three plays a peer implementation that does: the sender's
+		// terms get a fresh script of the same kind before the offer is
+		// built. The closee must build and sign the same transaction.
+		if e.ScriptKind[x] != kOpReturn && r.Draw(3) == 2 {
+			if cn, ok := side.st.(*chancloser.ClosingNegotiation); ok && cn.CloseChannelTerms != nil {
+				ns := mkScript(e.ScriptKind[x], byte(0xc0+8*x+side.reoffers))
+				e.AltScripts[x] = append(e.AltScripts[x], ns)
+				cn.CloseChannelTerms.LocalDeliveryScript = ns
+				switch ps := cn.PeerState.GetForParty(lntypes.Local).(type) {
+				case *chancloser.ClosePending:
+					if ps.CloseChannelTerms != nil {
+						ps.CloseChannelTerms.LocalDeliveryScript = ns
+					}
+				case *chancloser.LocalCloseStart:
+					if ps.CloseChannelTerms != nil {
+						ps.CloseChannelTerms.LocalDeliveryScript = ns
+					}
+				case *chancloser.CloseErr:
+					if ps.CloseChannelTerms != nil {
+						ps.CloseChannelTerms.LocalDeliveryScript = ns
+					}
+				}
+				r.Count("probe_rbf_closer_script_changed")
+				r.Logf("%s: switches its delivery script to %x for this offer", nm(x), ns)
+			}
+		}
 		s.apply(x, &chancloser.SendOfferEvent{TargetFeeRate: rate})
 	case "deliver":
 		y := 1 - x
